@@ -65,7 +65,20 @@ func mkHistoryLines(g *mkGen, rnd *rand.Rand, n int, runnerSafe bool) []string {
 	for len(res) < n {
 		items := g.line(10, runnerSafe)
 		line := mkLayout{rnd: rnd}.line(items)
-		switch r := rnd.Intn(12); {
+		switch r := rnd.Intn(14); {
+		case r >= 12:
+			// markers whose contents are read as raw text up to their close marker, of every
+			// name (what the parser keeps from one such marker must not reach the next one)
+			open := []string{`[nomarkup]`, `[select value=b a="A" b="B"]`, `[plural value=2 one="% thing" other="% things"]`,
+				`[ordinal value=3 one="%st" two="%nd" few="%rd" other="%th"]`}
+			name := []string{"nomarkup", "select", "plural", "ordinal"}
+			k := rnd.Intn(4)
+			end := "[/" + name[k] + "]"
+			if rnd.Intn(4) == 0 {
+				end = "[/]"
+			}
+			line = []string{"", "so ", "[b]x[/b] "}[rnd.Intn(3)] + open[k] + []string{"raw", "a [b] c", "x y", ""}[rnd.Intn(4)] + end +
+				[]string{"", " done", " [i]z[/i]"}[rnd.Intn(3)]
 		case r < 6:
 		case r < 9:
 			line = mkBreak(rnd, line)
@@ -106,21 +119,58 @@ func mkHistoryLines(g *mkGen, rnd *rand.Rand, n int, runnerSafe bool) []string {
 type mkScenario struct {
 	pre, tail []string
 	bodies    [][]string
+	// every line is preceded by a line whose inline expression fails to evaluate after some
+	// text and markup have been assembled: the runner reports the error and moves on, and
+	// the line shown next must still be parsed as if nothing had happened
+	poison bool
+}
+
+const mkPoisonLine = `Ghost: [wave]boo [b x=1]{dice("six")} tail[/b][/wave]`
+
+// mkRunnerSkipsFailedLines: does a runner move past a line whose expression failed?  (Only
+// then is the element after an error the next line of the script.)
+func mkRunnerSkipsFailedLines() (skips bool) {
+	guarded(func() {
+		r, err := ysgo.NewDialogueRunner(nil, "verif", strings.NewReader("title: Start\n---\n"+mkPoisonLine+"\nplain\n===\n"))
+		if err != nil || r == nil {
+			return
+		}
+		if _, err := r.Next(0); err == nil {
+			return
+		}
+		// (judged by the shape of the run only: a line, then the end - not by the line's content)
+		el, err := r.Next(0)
+		if err != nil || el == nil || el.Line == nil {
+			return
+		}
+		el, err = r.Next(0)
+		skips = err == nil && el == nil
+	})
+	return skips
 }
 
 func (s mkScenario) script() string {
 	var b strings.Builder
 	b.WriteString("title: Start\n---\n")
 	for _, l := range s.pre {
+		if s.poison {
+			b.WriteString(mkPoisonLine + "\n")
+		}
 		b.WriteString(l + "\n")
 	}
 	for i, body := range s.bodies {
 		fmt.Fprintf(&b, "-> choice%d\n", i)
 		for _, l := range body {
+			if s.poison {
+				b.WriteString("    " + mkPoisonLine + "\n")
+			}
 			b.WriteString("    " + l + "\n")
 		}
 	}
 	for _, l := range s.tail {
+		if s.poison {
+			b.WriteString(mkPoisonLine + "\n")
+		}
 		b.WriteString(l + "\n")
 	}
 	b.WriteString("<<jump Start>>\n===\n")
@@ -145,6 +195,12 @@ func mkLineText(st *tree.Statement) (string, bool) {
 // frontEndKeeps checks that the Yarn front end hands every line of the scenario to the
 // markup parser unchanged (otherwise the scenario is not judged).
 func (s mkScenario) frontEndKeeps(script string) (ok bool) {
+	if s.poison {
+		// the lines themselves are those of the scenario without the failing lines
+		plain := s
+		plain.poison = false
+		return plain.frontEndKeeps(plain.script())
+	}
 	guarded(func() {
 		d, err := tree.FromReaders(strings.NewReader(script))
 		if err != nil || d == nil || len(d.Nodes) != 1 {
@@ -195,6 +251,16 @@ func (s mkScenario) run(script string, choices []int) (lines []string, res []mkR
 	choice := 0
 	expectLine := func(l string) bool {
 		var r mkRes
+		if s.poison {
+			failed := false
+			guarded(func() {
+				_, err := runner.Next(choice)
+				failed = err != nil
+			})
+			if !failed {
+				return false
+			}
+		}
 		if !guarded(func() {
 			el, err := runner.Next(choice)
 			switch {
@@ -297,7 +363,8 @@ func markupHistory(m map[string]string) error {
 		for i := range sc.bodies {
 			bodies[i] = cpsAll(sc.bodies[i])
 		}
-		return map[string]any{"kind": "runner", "pre": cpsAll(sc.pre), "tail": cpsAll(sc.tail), "bodies": bodies, "choices": choices}
+		return map[string]any{"kind": "runner", "pre": cpsAll(sc.pre), "tail": cpsAll(sc.tail), "bodies": bodies, "choices": choices,
+			"poison": sc.poison}
 	}
 	h := 0
 	nDirect, nRunnerRuns, nRunnerSkipped, nFailing := 0, 0, 0, 0
@@ -330,6 +397,7 @@ func markupHistory(m map[string]string) error {
 				Tail    [][]int   `json:"tail"`
 				Bodies  [][][]int `json:"bodies"`
 				Choices []int     `json:"choices"`
+				Poison  bool      `json:"poison"`
 			}
 			if err := json.Unmarshal(raw, &c); err != nil {
 				return err
@@ -345,7 +413,7 @@ func markupHistory(m map[string]string) error {
 				direct(strs(c.Lines))
 				continue
 			}
-			sc := mkScenario{pre: strs(c.Pre), tail: strs(c.Tail)}
+			sc := mkScenario{pre: strs(c.Pre), tail: strs(c.Tail), poison: c.Poison}
 			for _, b := range c.Bodies {
 				sc.bodies = append(sc.bodies, strs(b))
 			}
@@ -366,6 +434,7 @@ func markupHistory(m map[string]string) error {
 		n := argInt(m, "n", 300)
 		rnd := rand.New(rand.NewSource(Seed()))
 		g := &mkGen{rnd: rand.New(rand.NewSource(Seed() + 11))}
+		skipsFailed := mkRunnerSkipsFailedLines()
 		for i := 0; i < n; i++ {
 			if i%60 == 59 {
 				if err := flush(); err != nil {
@@ -383,14 +452,16 @@ func markupHistory(m map[string]string) error {
 				continue
 			}
 			ls := mkHistoryLines(g, rnd, 8, true)
-			sc := mkScenario{pre: ls[0:1+rnd.Intn(2)], tail: ls[2:3+rnd.Intn(2)],
-				bodies: [][]string{ls[4:5+rnd.Intn(2)], ls[6:6+rnd.Intn(3)], {}}}
+			sc := mkScenario{pre: ls[0 : 1+rnd.Intn(2)], tail: ls[2 : 3+rnd.Intn(2)],
+				bodies: [][]string{ls[4 : 5+rnd.Intn(2)], ls[6 : 6+rnd.Intn(3)], {}}}
 			script := sc.script()
 			if !sc.frontEndKeeps(script) {
 				nRunnerSkipped++
 				continue
 			}
-			for _, choices := range [][]int{{0, 1}, {1, 0}, {2, 2, 0}} {
+			for ci, choices := range [][]int{{0, 1}, {1, 0}, {2, 2, 0}, {1, 0, 2}} {
+				sc.poison = ci == 3 && skipsFailed
+				script := sc.script()
 				h++
 				cases = append(cases, runnerCase(sc, choices))
 				lines, res, ok := sc.run(script, choices)
